@@ -6,15 +6,10 @@ import time
 import engine_check as ec
 import vcommon as vc
 
-CHECKS = {}
-
-
-def prop(*ids):
-    def deco(f):
-        for i in ids:
-            CHECKS[i] = f
-        return f
-    return deco
+from props_base import CHECKS, prop  # noqa: F401
+# ON DELETE / ON UPDATE RESTRICT is not accepted by the parser ("Expected NO ACTION, CASCADE, SET NULL, or SET DEFAULT"),
+# so the restricting behaviour is exercised through NO ACTION (the executors treat both alike)
+FK_MODES = ["cascade", "setnull", "noaction"]
 
 
 def replay(prop_id, path):
@@ -24,7 +19,16 @@ def replay(prop_id, path):
     sc = r["scenario"]
     cfg = {"name": r.get("cfg") or "default", "args": r.get("cfg_args", []), "env": r.get("cfg_env") or None}
     wd = os.path.join(vc.RUN, "replay_run_%s" % prop_id)
-    verdict, events, _ = ec.run_parts(prop_id, [{"name": "replay", "scenarios": [sc], "configs": [cfg]}], wd)
+    twin = r.get("twin")
+    if twin:
+        cfgs = [c for c in twin["configs"] if c]
+        cfgs = cfgs if len({c["name"] for c in cfgs}) == len(cfgs) else cfgs[:1]
+        verdict, events, _ = ec.run_parts(prop_id, [{"name": "replay", "scenarios": [sc], "configs": cfgs}], wd,
+                                          trace_module=twin["trace_module"], trace_cfg=twin["trace_module"] + ".cfg", shards="by_scenario")
+    else:
+        tm = r.get("trace_module") or "TraceEngine"
+        verdict, events, _ = ec.run_parts(prop_id, [{"name": "replay", "scenarios": [sc], "configs": [cfg]}], wd,
+                                          trace_module=tm, trace_cfg=tm + ".cfg", harness_bin=r.get("harness") or "vq_run")
     for e in vc.read_ndjson(events):
         print("%3s %-6s %s" % (e.get("i"), e.get("out"), e.get("sql")))
     print(json.dumps(verdict["bad"], indent=1))
@@ -108,7 +112,7 @@ def check_c01(prop_id, tier, seed):
 # ---------------------------------------------------------------- DML under constraints (MC_Dml)
 DML_OWNS = {
     # C09: a statement the spec accepts changed other rows / another number of rows than specified, or was refused
-    "C09": lambda b: b.get("a") in ("ins", "upd", "del") and b.get("exp") == "ok" and b.get("what") in ("state", "cnt", "out", "panic"),
+    "C09": lambda b: b.get("a") in ("ins", "inssel", "upd", "del") and b.get("exp") == "ok" and b.get("what") in ("state", "cnt", "out", "panic"),
     # C10: a statement whose effect violates a declared constraint was accepted
     # (and: after an accepted statement the PK/UNIQUE hash indexes that enforcement relies on are out of step)
     "C10": lambda b: (b.get("exp") == "err" and b.get("obs") == "ok") or (b.get("exp") == "ok" and b.get("what") == "index")
@@ -118,16 +122,45 @@ DML_OWNS = {
 }
 
 
+def _gen_add(agg, stats):
+    for k in ("states_generated", "distinct_states"):
+        agg[k] = agg.get(k, 0) + stats.get(k, 0)
+    agg["mc_ok"] = agg.get("mc_ok", True) and stats.get("mc_ok", True)
+
+
 @prop("C09", "C10", "C11")
 def check_dml(prop_id, tier, seed):
+    """C09/C10/C11 share MC_Dml; C10 and C11 add the models whose defects they own:
+    C10: MC_Dml2 (INSERT ... SELECT, append mode, UNIQUE index) and MC_Idx (CREATE UNIQUE INDEX, DML against UNIQUE indexes);
+    C11: MC_Dml2 (a later source row fails after earlier ones were stored) and MC_Fk (refused after referential actions ran)."""
     t0 = time.time()
     depth = {"quick": 6, "thorough": 8}[tier]
+    agg = {"exhaustive": True}
+    cfgs = [{"name": "default", "args": ["--idx"]}]
     scen, stats = vc.gen_scenarios(prop_id, "MC_Dml", "MC_Dml.cfg", ec.ENGINE_DEPS, consts={"MaxDepth": depth}, workers=1)
-    stats["exhaustive"] = True
-    parts = [{"name": "dml", "scenarios": scen, "configs": [{"name": "default", "args": ["--idx"]}]}]
+    _gen_add(agg, stats)
+    parts = [{"name": "dml", "scenarios": scen, "configs": cfgs}]
+    models = ["MC_Dml"]
+    if prop_id in ("C10", "C11"):
+        s2, st2 = vc.gen_scenarios(prop_id, "MC_Dml2", "MC_Dml2.cfg", ec.ENGINE_DEPS, consts={"MaxDepth": {"quick": 4, "thorough": 5}[tier]}, workers=1)
+        _gen_add(agg, st2)
+        parts.append({"name": "dml2", "scenarios": s2, "configs": cfgs})
+        models.append("MC_Dml2")
+    if prop_id == "C10":
+        s3, st3 = idx_scenarios(prop_id, tier, seed, 10 ** 9, 0)
+        _gen_add(agg, st3)
+        parts.append({"name": "idx", "scenarios": s3, "configs": cfgs})
+        models.append("MC_Idx")
+    if prop_id == "C11":
+        for m in FK_MODES:
+            s4, st4 = vc.gen_scenarios(prop_id, "MC_Fk", "MC_Fk.cfg", ec.ENGINE_DEPS,
+                                       consts={"MaxDepth": {"quick": 3, "thorough": 4}[tier], "Mode": '"%s"' % m}, workers=1)
+            _gen_add(agg, st4)
+            parts.append({"name": "fk_" + m, "scenarios": [{"id": "%s-%s" % (x["id"], m), "steps": x["steps"]} for x in s4], "configs": cfgs})
+        models.append("MC_Fk")
     wd = os.path.join(vc.RUN, "work_%s" % prop_id)
     verdict, events, _ = ec.run_parts(prop_id, parts, wd)
-    return ec.finish(prop_id, tier, seed, t0, verdict, events, stats, owns=DML_OWNS[prop_id], configs=parts[0]["configs"])
+    return ec.finish(prop_id, tier, seed, t0, verdict, events, agg, owns=DML_OWNS[prop_id], configs=cfgs, extra_cov={"models": models})
 
 
 # ---------------------------------------------------------------- index families (MC_Idx)
@@ -158,7 +191,7 @@ IDX_CONFIGS = {
     "default": {"name": "default", "args": ["--idx"]},
     "noindex": {"name": "noindex", "args": ["--elide-index"]},
     "spill": {"name": "spill", "args": ["--index-budget", "1", "--idx"]},
-    "disk": {"name": "disk", "args": ["--idx"], "env": {"VIBESQL_VERIF_FORCE_DISK_INDEX": "1"}},
+    "disk": {"name": "disk", "args": ["--idx", "--own-dir"], "env": {"VIBESQL_VERIF_FORCE_DISK_INDEX": "1"}},
 }
 
 
@@ -342,7 +375,7 @@ def lit_of(v):
     return {"k": "lit", "v": v}
 
 
-def big_scenarios(prop_id, seed, ddl, queries, sizes, int_dom=(0, 1, 2, 3, -1, 7), str_dom=("a", "A", "b", "ab", ""), per_size=2, tag="big"):
+def big_scenarios(prop_id, seed, ddl, queries, sizes, int_dom=(0, 1, 2, 3, 5, 7), str_dom=("a", "A", "b", "ab", ""), per_size=2, tag="big"):
     out = []
     for j, (n, t1, t2) in enumerate(big_tables(seed, sizes, list(int_dom), list(str_dom), per_size)):
         steps = list(ddl)
@@ -386,9 +419,7 @@ def check_c03(prop_id, tier, seed):
 
 
 # ---------------------------------------------------------------- C12: referential integrity (MC_Fk)
-# ON DELETE / ON UPDATE RESTRICT is not accepted by the parser ("Expected NO ACTION, CASCADE, SET NULL, or SET DEFAULT"),
-# so the restricting behaviour is exercised through NO ACTION (the executors treat both alike)
-FK_MODES = ["cascade", "setnull", "noaction"]
+
 
 
 @prop("C12")
@@ -407,3 +438,132 @@ def check_c12(prop_id, tier, seed):
     wd = os.path.join(vc.RUN, "work_%s" % prop_id)
     verdict, events, _ = ec.run_parts(prop_id, parts, wd)
     return ec.finish(prop_id, tier, seed, t0, verdict, events, agg, configs=cfgs, extra_cov={"fk_modes": FK_MODES})
+
+
+# ---------------------------------------------------------------- C04: results independent of parallelism
+def par_cfg(name, thr, threads, extra_args=None):
+    env = {"RAYON_NUM_THREADS": str(threads)}
+    if thr is not None:
+        env["PARALLEL_THRESHOLD"] = str(thr)
+    return {"name": name, "args": list(extra_args or []), "env": env}
+
+
+def big_par_scenarios(prop_id, seed, n_tb, n_ts, nseeds):
+    col = lambda kind, mod, nullp=0: {"kind": kind, "mod": mod, "nullp": nullp}
+    ct = lambda t, cols: {"a": "sql", "sql": "CREATE TABLE %s (%s)" % (t, cols)}
+    q = lambda sql, ordered=False: {"a": "q", "raw": sql, "ord": ordered}
+    queries = [
+        q("SELECT ID, A FROM TB WHERE A < 10"),
+        q("SELECT ID FROM TB WHERE A = 3 AND B > 5"),
+        q("SELECT ID, B FROM TB WHERE A BETWEEN 5 AND 9 AND C = 's2'"),
+        q("SELECT * FROM TB ORDER BY A, ID", True),
+        q("SELECT * FROM TB ORDER BY B DESC, ID ASC LIMIT 50", True),
+        q("SELECT ID, C FROM TB WHERE B IS NOT NULL ORDER BY C, B, ID LIMIT 200 OFFSET 100", True),
+        q("SELECT DISTINCT A, C FROM TB"),
+        q("SELECT A, COUNT(*), SUM(B), MIN(B), MAX(C) FROM TB GROUP BY A"),
+        q("SELECT COUNT(*), SUM(B), MIN(A), MAX(A) FROM TB WHERE B >= 10"),
+        q("SELECT TB.ID, TS.ID FROM TB INNER JOIN TS ON TB.A = TS.A WHERE TS.D < 2"),
+        q("SELECT TB.ID, TS.ID FROM TB LEFT JOIN TS ON TB.B = TS.A AND TS.D = 0 WHERE TB.A = 4"),
+        q("SELECT ID FROM TB WHERE A IN (SELECT A FROM TS WHERE D = 1)"),
+        q("SELECT ID FROM TB WHERE A NOT IN (SELECT A FROM TS WHERE D = 1 AND A IS NOT NULL)"),
+        q("SELECT ID FROM TB WHERE EXISTS (SELECT 1 FROM TS WHERE TS.A = TB.B AND TS.D = 2)"),
+        q("SELECT TB.A, COUNT(*) FROM TB, TS WHERE TB.A = TS.A AND TS.D = 3 GROUP BY TB.A"),
+        q("SELECT A FROM TB WHERE B < 3 UNION SELECT A FROM TS WHERE D = 4"),
+    ]
+    out = []
+    for k in range(nseeds):
+        for indexed in (False, True):
+            steps = [ct("TB", "ID INTEGER PRIMARY KEY, A INTEGER, B INTEGER, C VARCHAR(10)"),
+                     ct("TS", "ID INTEGER PRIMARY KEY, A INTEGER, D INTEGER"),
+                     {"a": "load", "t": "TB", "n": n_tb, "seed": seed * 100 + k,
+                      "cols": [col("seq", 1), col("int", 40, 5), col("int", 25, 10), col("str", 7, 5)]},
+                     {"a": "load", "t": "TS", "n": n_ts, "seed": seed * 100 + 50 + k,
+                      "cols": [col("seq", 1), col("int", 60, 5), col("int", 6)]}]
+            if indexed:
+                steps += [{"a": "sql", "sql": "CREATE INDEX IXA ON TB (A)"}, {"a": "sql", "sql": "CREATE INDEX IXSA ON TS (A)"}]
+            out.append({"id": "%s-big-%d-%s" % (prop_id, k, "idx" if indexed else "plain"), "steps": steps + queries})
+    return out, len(queries)
+
+
+@prop("C04")
+def check_c04(prop_id, tier, seed):
+    t0 = time.time()
+    # (a) small scale, decided against the reference semantics: PARALLEL_THRESHOLD=0 drives every parallel branch even on
+    # three rows; each query is executed twice in the process
+    small_cfgs = [par_cfg("par0", 0, 4, ["--twice"]), par_cfg("seq", "max", 1, ["--twice"])]
+    fams = ["F1", "F3", "F4", "F5", "F6", "F7"]
+    parts, stats = sem_parts(prop_id, tier, fams, configs=small_cfgs, sample={"quick": 15, "thorough": 300}[tier], seed=seed)
+    wd = os.path.join(vc.RUN, "work_%s" % prop_id)
+    v1, ev1, _ = ec.run_parts(prop_id, parts, wd)
+    # (b) large scale (above the row floors of the parallel hash build and of rayon's parallel sort), decided by
+    # ConfigEq.tla: the observations under every parallelism configuration must be equal event by event
+    n_tb, n_ts, nseeds = {"quick": (3000, 1200, 1), "thorough": (20000, 5000, 3)}[tier]
+    big, nq = big_par_scenarios(prop_id, seed, n_tb, n_ts, nseeds)
+    da = ["--digest-above", "0", "--no-state", "--twice"]
+    big_cfgs = [par_cfg("seq", "max", 1, da), par_cfg("par0_t2", 0, 2, da), par_cfg("par0_t16", 0, 16, da),
+                par_cfg("hw_t16", None, 16, da), par_cfg("par1000_t4", 1000, 4, da)]
+    wd2 = os.path.join(vc.RUN, "work_%s_big" % prop_id)
+    v2, ev2, _ = ec.run_parts(prop_id, [{"name": "big", "scenarios": big, "configs": big_cfgs}], wd2,
+                              trace_module="ConfigEq", trace_cfg="ConfigEq.cfg", shards="by_scenario")
+    # a load / DDL step that fails would make the comparison vacuous: count the successful queries
+    okq = 0
+    with open(ev2) as fh:
+        for ln in fh:
+            e = json.loads(ln)
+            if e["a"].get("a") == "q" and e["out"] == "ok" and e.get("dg", {}).get("n", 0) > 0:
+                okq += 1
+    if okq < len(big) * nq * len(big_cfgs) // 2:
+        raise vc.ToolError("large-scale part is vacuous: only %d successful non-empty query results" % okq)
+    stats["exhaustive"] = False
+    rc = ec.finish(prop_id, tier, seed, t0, v1, ev1, stats, configs=small_cfgs, extra_bad=v2["bad"], extra_events=ev2,
+                   extra_cfgs=big_cfgs,
+                   extra_cov={"families": fams, "small_configs": [c["name"] for c in small_cfgs],
+                              "large_configs": [c["name"] for c in big_cfgs], "large_rows": [n_tb, n_ts],
+                              "large_queries_compared": v2["cnt"].get("queries", 0), "large_nonempty_ok_results": okq})
+    if rc == 0 and os.environ.get("VERIF_KEEP") != "1":
+        import shutil
+        shutil.rmtree(wd2, ignore_errors=True)
+    return rc
+
+
+# ---------------------------------------------------------------- C33: schema changes keep catalog, storage and indexes consistent
+def _col(c, q=""):
+    return {"k": "col", "c": c, "q": q}
+
+
+def _cmp(op, l, r):
+    return {"k": "cmp", "op": op, "l": l, "r": r}
+
+
+def _sel(t, star=True, sel=None, where=None, order=None):
+    return {"a": "q", "q": {"k": "select", "with": [], "from": {"k": "table", "t": t, "as": t}, "where": where or {"k": "none"}, "group": [],
+                            "having": {"k": "none"}, "star": star, "sel": sel or [], "distinct": False, "order": order or [], "limit": -1, "offset": -1}}
+
+
+DDL_PROBES = [
+    _sel("T1"),
+    _sel("T1", where=_cmp("=", _col("A"), lit(1))),
+    _sel("T1", where=_cmp(">=", _col("B"), lit(1)), order=[{"e": _col("B"), "dir": "asc", "pos": 0}]),
+    _sel("T1", star=False, sel=[{"e": _col("C"), "as": "C"}]),
+    _sel("T1", star=False, sel=[{"e": _col("D"), "as": "D"}], where=_cmp("=", _col("D"), lit(1))),
+]
+
+
+@prop("C33")
+def check_c33(prop_id, tier, seed):
+    t0 = time.time()
+    depth = {"quick": 4, "thorough": 5}[tier]
+    scen, stats = vc.gen_scenarios(prop_id, "MC_Ddl", "MC_Ddl.cfg", ec.ENGINE_DEPS, consts={"MaxDepth": depth}, workers=1)
+    stats["exhaustive"] = True
+    scen = [{"id": s["id"], "steps": s["steps"] + DDL_PROBES} for s in scen]
+    cfgs = [{"name": "default", "args": ["--idx"]}]
+    wd = os.path.join(vc.RUN, "work_%s" % prop_id)
+    verdict, events, _ = ec.run_parts(prop_id, [{"name": "ddl", "scenarios": scen, "configs": cfgs}], wd)
+    return ec.finish(prop_id, tier, seed, t0, verdict, events, stats, configs=cfgs, extra_cov={"probes_per_history": len(DDL_PROBES)})
+
+
+# ---------------------------------------------------------------- checks that live in their own modules (lib/checks_*.py)
+import glob as _glob
+import importlib as _importlib
+for _f in sorted(_glob.glob(os.path.join(os.path.dirname(os.path.abspath(__file__)), "checks_*.py"))):
+    _importlib.import_module(os.path.basename(_f)[:-3])
